@@ -311,6 +311,18 @@ func C19(c *runner.Cfg) *report.Result {
 				return true
 			}
 			if snap.Connected && snap.Live == 0 && !snap.Connecting {
+				// a connection that is being torn down is dead and still listed until its close
+				// notification has run: only a state that stays like this is a violation
+				if Settle(Watchdog/6, func() bool {
+					s2, _ := mpx.VerifClientSnapshot(inner)
+					return !(s2.Connected && s2.Live == 0 && !s2.Connecting)
+				}) {
+					res.Count("connected_without_live_connection_transient", 1)
+					return true
+				}
+				snap, _ = mpx.VerifClientSnapshot(inner)
+			}
+			if snap.Connected && snap.Live == 0 && !snap.Connecting {
 				res.Violate("c19:connected-without-live-connection", fmt.Sprintf("%s: Connected is set, but no listed connection is alive and nothing is connecting (snapshot under the client mutex: %+v)", what, snap), wit)
 			}
 			if o := proxy.Open(); o > max {
@@ -423,9 +435,21 @@ func C19(c *runner.Cfg) *report.Result {
 			snap, _ := mpx.VerifClientSnapshot(cl)
 			wit["client_snapshot_after_the_failed_call"] = fmt.Sprintf("%+v", snap)
 			wit["proxy_open"], wit["proxy_accepts"], wit["quiescent_before_the_call"] = proxy.Open(), proxy.Accepts.Load(), quiet
-			_, st2 := cl.Conn(noCtx)
+			// one retry tells a client that does not recover from a connection that was lost at this very
+			// moment (a fresh connection closed during its handshake: the call reports "connection
+			// closed"; what closed it cannot be told from the recorded events, so that single failure is
+			// reported as inconclusive, never as held)
+			quiesce("after the failed call")
+			ch2, st2 := cl.Channel(noCtx)
 			wit["second_call"] = st2.String()
-			res.Violate("c19:no-recovery", fmt.Sprintf("the server is reachable again but the next Channel call returned %v (auto-connect=%v)", st, auto), wit)
+			if st2.OK() {
+				ch2.Free()
+			}
+			if st2.OK() && st.Code == status.CodeClosed {
+				res.Inconcl("lifetime %d: after the outage the first Channel call returned %v, the second succeeded (%v)", idx, st, wit)
+			} else {
+				res.Violate("c19:no-recovery", fmt.Sprintf("the server is reachable again but the next Channel call returned %v and the one after it %v (auto-connect=%v)", st, st2, auto), wit)
+			}
 		} else {
 			if st := echoOnce(ch, uint32(idx)); !st.OK() {
 				res.Violate("c19:no-recovery", fmt.Sprintf("channel obtained after recovery does not work: %v", st), wit)
